@@ -94,10 +94,14 @@ TMsg == /\ e.op = "msg" /\ UNCHANGED st
                                         /\ SubSeq(e.wirep, 1, 2) = U16(Len(e.wire))
                                         /\ WireIs(SubSeq(e.wirep, 3, Len(e.wirep)), st.id, st.flags, st.qs, st.xs)
                                         /\ SubSeq(e.wirep, 3, Len(e.wirep)) = e.wire)
-        \* from_wire parameter sweep: one_rr_per_rrset, ignore_trailing (+ trailing octets), question_only
+        \* from_wire / to_wire parameter sweep: one_rr_per_rrset, ignore_trailing (+ trailing octets), question_only,
+        \* continue_on_error, raise_on_truncation, origin as argument, prepend_length on the parsed message
         /\ Check(t, l, "ParseVariants", HasKey(e, "var") =>
                  /\ MessageIs(e.var.onerr, Hdr.pad > 0) /\ e.var.wire1 = e.wire
                  /\ MessageIs(e.var.trail, Hdr.pad > 0)
+                 /\ MessageIs(e.var.coe, Hdr.pad > 0) /\ e.var.nerr = 0             \* continue_on_error on a valid message
+                 /\ MessageIs(e.var.rot, Hdr.pad > 0) /\ e.var.trunc = HasBit(HdrFlags(Hdr), TC)   \* raise_on_truncation
+                 /\ e.var.wireo = e.wire                                           \* to_wire(origin=...) argument
                  /\ e.var.qonly.id = Hdr.id /\ e.var.qonly.flags = HdrFlags(Hdr) /\ QuestionIs(e.var.qonly.sections[1])
                  /\ \A s \in 2..4 : e.var.qonly.sections[s] = <<>>
                  /\ Len(e.var.wirep2) = Len(e.wire) + 2 /\ SubSeq(e.var.wirep2, 3, Len(e.var.wirep2)) = e.wire)
